@@ -81,13 +81,26 @@ def run_case(case, prefix=None):
     elif mode == "ackpl":
         ptx.ack = True
         prx.ack = True
-    prx.open_rx_pipe(1, ADDR)
+    txa = case.get("txaddr")
+    peer_addr = ADDR
+    if txa:
+        # the transmitter's pipe 0 held a reading address and went through RX mode before a SHORT TX address is opened:
+        # only the leading bytes of TX_ADDR change; the peer listens on what the radio actually transmits to
+        ptx.open_rx_pipe(0, unhex(txa["p0"]))
+        ptx.listen = True
+        sim.advance(300 * US)
+        ptx.listen = False
+        ptx.open_tx_pipe(unhex(txa["short"]))
+        peer_addr = bytes(T.areg[0x10][:5])
+        res.label("short-tx-address-after-pipe0-history")
+    prx.open_rx_pipe(1, peer_addr)
     prx.listen = bool(case["listening"])
     if mode == "ackpl":
         for h in case.get("ackpl", [])[:3]:
             R.xfer(bytes([0xA9]) + unhex(h))
     ptx.listen = False
-    ptx.open_tx_pipe(ADDR)
+    if not txa:
+        ptx.open_tx_pipe(ADDR)
     fault = WordFault(case.get("word", ""), case.get("default", "D"))
     med.fault = fault
     sim.advance(500 * US)
@@ -98,17 +111,26 @@ def run_case(case, prefix=None):
         n0, t0 = len(med.log), sim.now
         kind = call[0]
         used0 = len(fault.used)
-        if kind in ("read", "listen_cycle"):
+        if kind in ("read", "listen_cycle", "ctx"):
             # what an application does between two transmissions: take a received (ACK) payload out of the RX FIFO, or
             # listen for a while and come back.  Not judged themselves (C10 / C08 do that); the calls that follow are.
             try:
                 if kind == "read":
                     if ptx.available():
                         ptx.read()
+                elif kind == "ctx" and drv == "lite":
+                    pass  # rf24_lite has no context manager (documented reduction)
+                elif kind == "ctx":
+                    ptx.__exit__(None, None, None)  # the object's with-block ends and is entered again (a pending failed
+                    sim.advance(300 * US)           # payload survives in the radio's TX FIFO)
+                    ptx.__enter__()
+                    sim.advance(2 * MS)
                 else:
                     ptx.listen = True
                     sim.advance(300 * US)
                     ptx.listen = False
+                    if txa:
+                        ptx.open_tx_pipe(unhex(txa["short"]))  # documented: re-open the TX pipe after pipe 0 was used for reading
             except Exception as e:  # noqa: BLE001
                 res.fail(exc_signature(P + "/raises", e), "%s: %r" % (kind, e))
                 break
@@ -296,6 +318,14 @@ def _enum(arcs, frs, drv="full", peer="full"):
                             yield base
                             for pre in PRES:
                                 yield dict(base, pre=pre)
+                # a short TX address opened after pipe 0 held a reading address and the radio went through RX mode
+                n = (1 + arc) * (1 + fr)
+                for short, p0 in (("c1c2c3", "314e6f6465"), ("d1", "a1a2a3a4a5"), ("e1e2e3e4", "3150")):
+                    for w in ("D" * n, "A" * n, "P" + "D" * (n - 1)):
+                        for so in (False, True):
+                            yield {"drv": drv, "peer": peer, "rate": 1, "arc": arc, "ard": 1, "mode": "aa", "listening": True, "ackpl": [],
+                                   "word": w, "default": "D", "calls": [["send", "c0ffee01", False, fr, so], ["resend", so]],
+                                   "txaddr": {"short": short, "p0": p0}}
                 # acknowledged modes after each pre-history, for the all-delivered / all-lost / ACK-lost words
                 n = (1 + arc) * (1 + fr)
                 for pre in PRES:
@@ -347,7 +377,7 @@ def _enum_interleaved(depth, drv="full", peer="full"):
                         for i, (k, so) in enumerate(hist):
                             base.append(["send", "%02x%02x" % (0x20 + i, 0x66), False, 0, so] if k == "send" else ["resend", so])
                         for pos in range(1, d):
-                            for ins in (["read"], ["listen_cycle"]):
+                            for ins in (["read"], ["listen_cycle"], ["ctx"]):
                                 if ins[0] == "read" and mode != "ackpl":
                                     continue
                                 yield {"drv": drv, "peer": peer, "rate": 1, "arc": 0, "ard": 1, "mode": mode, "listening": True,
@@ -373,7 +403,8 @@ def strategy(drv="full", peer="full"):
         "ackpl": st.lists(st.binary(min_size=1, max_size=32).map(bytes.hex), max_size=3),
         "word": st.text(alphabet="DDPA", max_size=64),
         "default": st.sampled_from(["D", "D", "P", "A"]),
-        "calls": st.lists(st.one_of(send, send, send, sendl, sendl, resend, resend, st.just(["read"]), st.just(["listen_cycle"])), min_size=1, max_size=6),
+        "calls": st.lists(st.one_of(send, send, send, sendl, sendl, resend, resend, st.just(["read"]), st.just(["listen_cycle"]), st.just(["ctx"])), min_size=1, max_size=6),
+        "txaddr": st.one_of(st.none(), st.none(), st.fixed_dictionaries({"short": st.binary(min_size=1, max_size=4).map(bytes.hex), "p0": st.binary(min_size=2, max_size=5).map(bytes.hex)})),
         "mcu": st.fixed_dictionaries({"spi": st.sampled_from([8, 20, 100, 400]), "jit": st.sampled_from([0, 30]),
                                       "seed": st.integers(0, 999)}),
         "pre": st.one_of(st.just([]), st.just([]), st.lists(st.sampled_from(PRES), min_size=1, max_size=3).map(lambda ls: [o for l in ls for o in l])),
